@@ -42,6 +42,13 @@ def check(ctx):
     m = pmatch("Signal(range(Q_n))", decl) if decl else None
     ctx.check(m is not None and lin_equal(m["n"], pat("self.max_count + 1")), "C20.counter-range", comp.site, "Semaphore.count.shape", found=tstr(decl) if decl else "none",
               required="Signal(range(max_count + 1)): can hold 0..max_count")
+    # every signal that carries the next counter value (right-hand side of the register update) holds the same range
+    for w in writers_of(ex, pat("self.count"), sync=True):
+        if w.rhs[0] == "a" and w.rhs[1] == ("self",):
+            d2 = comp.init_attr(w.rhs[2])
+            m2 = pmatch("Signal(range(Q_n))", d2) if d2 else None
+            ctx.check(m2 is not None and lin_equal(m2["n"], pat("self.max_count + 1")), "C20.counter-range", w.fact.site, f"Semaphore.{w.rhs[2]}.shape", found=tstr(d2) if d2 else "none",
+                      required="the signal carrying the next count holds 0..max_count as well (a narrower one truncates max_count to 0 for powers of two)")
     # count <- next every cycle
     ws = writers_of(ex, cnt, sync=True)
     ok = len(ws) == 1 and ws[0].guard is True
